@@ -53,7 +53,7 @@ def run(ctx):
                     if ok:
                         takes.append((v, cs, e))
         for (i, s, pe, rve) in v.field_writes():
-            if pe[0] in ('var', 'proj') and '.response_handler' in pe[2]:
+            if pe[0] in ('var', 'proj') and '.response_handler' in pe[2] and not s.get('synthetic'):
                 ctx.ob(False, 'response_handler written outside construction: %s := %s' % (show(pe), show(rve)),
                        'writer|%s' % short(v.path), loc=v.loc(ln=s['ln']))
     ctx.floor(len(takes), 6, 'Option::take(response_handler) sites')
@@ -133,20 +133,16 @@ def run(ctx):
     # internal operations: DISCONNECT is created with options None
     ctx.rule('R-C01-3c', 'T4 table', 'user events carrying options are Publish/Subscribe/Unsubscribe; the DISCONNECT event creates an operation with no options')
     hue = ctx.fn('ProtocolState::handle_user_event')
-    rows = []
-    for cs in hue.calls('ProtocolState::create_operation'):
-        g = [x for x in guard_strs(hue, cs.bb) if ' is ' in x and 'event' in x]
-        opt = show(cs.arg(2))
-        rows.append((' '.join(g), opt))
-        m_ = re.search(r'is (\w+)$', g[0]) if g else None
-        var = m_.group(1) if m_ else '?'
-        if var == 'Disconnect':
-            ok = opt == 'Option::None{}'
-        else:
-            ok = opt.startswith('Option::Some{0: ClientOperationOptions::%s{' % var)
-        ctx.ob(ok, 'user event %s -> create_operation(options = %s)' % (var, opt[:60]), 'userevent|%s' % var, loc=cs.loc())
-    ctx.table('handle_user_event: event variant -> options', rows)
-    ctx.floor(len(rows), 4, 'create_operation sites in the user-event handler')
+    from . import shared
+    uet = shared.user_event_table(F, hue)
+    ctx.ob(uet is not None and set(uet) == {'Publish', 'Subscribe', 'Unsubscribe', 'Disconnect'}, 'the user-event handler is evaluated for each of the four user events (finite-domain evaluation)', 'userevent|table', loc=hue.loc())
+    for var in ('Publish', 'Subscribe', 'Unsubscribe', 'Disconnect'):
+        row = (uet or {}).get(var) or {'options': set(), 'outcomes': set()}
+        want = {'None'} if var == 'Disconnect' else {'Some(%s(?))' % var}
+        ctx.ob(row['options'] == want, 'user event %s -> create_operation(options = %s)' % (var, sorted(row['options'])), 'userevent|%s' % var, loc=hue.loc())
+        ctx.ob(bool(row['outcomes']) and all(o.count('create_operation') == 1 for o in row['outcomes']), 'user event %s creates exactly one operation on every path (%s)' % (var, sorted(row['outcomes'])), 'userevent-once|%s' % var, loc=hue.loc())
+        ctx.ob(all(('enqueue_operation' in o) != ('complete_operation_as_failure' in o) for o in row['outcomes']), 'user event %s: the new operation is either queued or failed, never both or neither (%s)' % (var, sorted(row['outcomes'])), 'userevent-fate|%s' % var, loc=hue.loc())
+    ctx.table('handle_user_event: event variant -> options', sorted((k, sorted(v['options'])) for k, v in (uet or {}).items()))
 
     # ------------------------------------------------------------------ R-C01-3b
     ctx.rule('R-C01-3b', 'T3 must-pass-through', 'inside the deliverers every Ok exit has invoked the taken handler')
